@@ -23,6 +23,18 @@ CLAIMED = {
              '(tables, parameters, dlsym results; anything else aborts the check with exit 2).',
         technique='static analysis: CFG dominance/path counting + interprocedural call summaries + '
                   'call-graph deny-list reachability + pointer-derivation (read-only) analysis'),
+    'C10': dict(
+        category='other',
+        text='Protocol check that quantifies the schedules away: every mutex acquired on the execv/execve path '
+             '(found through the resolved call graph) must be covered by a pthread_atfork registration made once '
+             '(pthread_once initialiser) before the first acquisition, whose prepare handler acquires it on every '
+             'path, whose parent handler releases it and whose child handler re-initialises it (release is accepted '
+             'only for default-type mutexes: a recursive mutex records the owner tid, which differs in the child). '
+             'Without this any instant at which another thread holds the lock is a deadlock for the forked child.',
+        design_ref='DESIGN.md §5 C10',
+        note='Assumes fork() is the only address-space-copying process creation and POSIX atfork semantics. The '
+             'defect the rule found on the pinned tree was replayed concretely and repaired (known_findings.json).',
+        technique='static analysis: call-graph lock-site discovery + CFG must-pass-through on fork handlers'),
     'C13': dict(
         category='proof',
         text='Complete case analysis over the guard structure of the three registries: the names and '
